@@ -67,3 +67,39 @@ Definition tp_assemble_did (m i : list N) : outcome tp_val did_err :=
   obind (tp_set_method tp_placeholder m) (fun t => tp_set_method_id t i).
 Definition tp_assemble_base (m i p : list N) (q f : option (list N)) : outcome tp_val did_err :=
   obind (tp_assemble_did m i) (fun t => obind (tp_set_path t p) (fun t' => Ok (tp_set_fragment_fresh (tp_set_query_fresh t' q) f))).
+
+(* ---- the general setters (every arm of the crate's code), used by the third-party join (transform_references) on the assembled base ---- *)
+Definition tp_set_query (t : tp_val) (v : option (list N)) : outcome tp_val did_err :=
+  let c := t_core t in let d := t_data t in
+  let mk d' q f := Ok {| t_data := d'; t_core := {| o_method := o_method c; o_mid := o_mid c; o_path := o_path c; o_query := q; o_frag := f |} |} in
+  match o_query c, o_frag c, v with
+  | Some qp, None, Some x => obind (splice d (qp + 1) (length d) x) (fun d' => mk d' (Some qp) None)
+  | None, Some fp, Some x => obind (splice d fp fp (63 :: x)) (fun d' => mk d' (Some fp) (Some (fp + length x + 1)%nat))
+  | Some qp, Some fp, Some x => obind (splice d (qp + 1) fp x) (fun d' => mk d' (Some qp) (Some (qp + length x + 1)%nat))
+  | None, None, Some x => mk (d ++ 63 :: x) (Some (length d)) None
+  | Some qp, None, None => if (qp <=? length d)%nat then mk (firstn qp d) None None else Panic
+  | Some qp, Some fp, None => obind (splice d qp fp []) (fun d' => mk d' None (Some (fp - (fp - qp))%nat))
+  | None, _, None => Ok t
+  end.
+Definition tp_set_fragment (t : tp_val) (v : option (list N)) : outcome tp_val did_err :=
+  let c := t_core t in
+  let trunc := match o_frag c with Some fp => if (fp <=? length (t_data t))%nat then Ok (firstn fp (t_data t)) else Panic | None => Ok (t_data t) end in
+  obind trunc (fun d =>
+  match v with
+  | Some x => Ok {| t_data := d ++ 35 :: x; t_core := {| o_method := o_method c; o_mid := o_mid c; o_path := o_path c; o_query := o_query c; o_frag := Some (length d) |} |}
+  | None => Ok {| t_data := d; t_core := {| o_method := o_method c; o_mid := o_mid c; o_path := o_path c; o_query := o_query c; o_frag := None |} |}
+  end).
+
+(* the CANONICAL value for given components: the string "did:" m ":" i p ["?" q] ["#" f] with the offsets that belong to it *)
+Definition optpre' (c : N) (o : option (list N)) : list N := match o with Some x => c :: x | None => [] end.
+Definition olen' (o : option (list N)) : nat := match o with Some x => S (length x) | None => O end.
+Definition tp_canon (m i p : list N) (q f : option (list N)) : tp_val :=
+  let dl := (5 + length m + length i)%nat in
+  {| t_data := [100; 105; 100; 58] ++ m ++ [58] ++ i ++ p ++ optpre' 63 q ++ optpre' 35 f;
+     t_core := {| o_method := 3; o_mid := (4 + length m)%nat; o_path := dl;
+                  o_query := match q with Some _ => Some (dl + length p)%nat | None => None end;
+                  o_frag := match f with Some _ => Some (dl + length p + olen' q)%nat | None => None end |} |}.
+(* resolution::transform_references on a canonical base, given what parse_relative read from the segment (P, Q, F) and the new path *)
+Definition tp_transform (base : tp_val) (bm bi : list N) (path' : list N) (query' F : option (list N)) : outcome tp_val did_err :=
+  obind (tp_set_path base path') (fun t1 => obind (tp_set_query t1 query') (fun t2 =>
+  obind (tp_set_method t2 bm) (fun t3 => obind (tp_set_method_id t3 bi) (fun t4 => tp_set_fragment t4 F)))).
